@@ -13,7 +13,8 @@ ID_ALPHA = [MISSING, None, 0, 1, -1, 2 ** 63, 10 ** 30, 1.0, 1.5, '', 'a', '1', 
 METHOD_ALPHA = [MISSING, 'js_checked', 'js_loose', 'slowfail', 'byid', 'wrapped', 'whoami', 'ctxp', 'fac1', 'fac2', 'ok', 'noargs', 'echo', 'kwonly', 'rpcerr', 'typed', 'boom', 'ctxm', 'view.vm',
                 'view._hidden', 'view', 'nope', '', 1, None, True, [], {}]
 PARAMS_ALPHA = [MISSING, [], {}, [1], [1, 2], {'a': 1}, {'a': 1, 'b': 2}, {'z': 0}, None, 1, 's', True,
-                [[1, [2, {'x': None}]]], {'v': {'k': [1.5, 'é', False]}}, [1, 2, 3], {'ctx': 'evil', 'a': 1}, [{}], [{'a': 1, 'b': 2}]]
+                [[1, [2, {'x': None}]]], {'v': {'k': [1.5, 'é', False]}}, [1, 2, 3], {'ctx': 'evil', 'a': 1}, [{}], [{'a': 1, 'b': 2}],
+                {'content-type': 1, 'a': 1}, {'': 0}, {'2fa': 1, '$ref': 2, 'a b': 3}]
 
 
 def dumps(v: Any) -> str:
@@ -144,6 +145,21 @@ def typed_calls(rng: random.Random, full: bool) -> Iterator[Tuple[str, str, List
         yield 'annotated-constraint', 'pd_pos', p
     for p in ([0], [-3], {'n': -1}, ['x'], [None], [], {'m': 1}, [1, 2], [[1]]):
         yield 'unbound', 'pd_pos', p
+    for p in ([3], {'n': -4}, [10 ** 20]):
+        yield 'schema-declares-draft-04', 'js_draft4', p
+    for p in ([3.0], {'n': 1.0}, ['3'], [None], [True]):
+        yield 'unbound', 'js_draft4', p
+    for p in ([[1, 2]], {'items': [1], 'stop': 5}, {'items': [1], 'step': 2}, {'items': [], 'start': 1, 'step': 2}, [[1], 1, 2, 3],
+              {'step': 9, 'items': 'i'}):
+        yield 'skips-optional-parameters', 'window', p
+    for p in ({'stop': 5}, {'items': 1, 'stride': 2}):
+        yield 'unbound', 'window', p
+    for p in ([[1, 2, 3]], {'lst': [], 'd': {}}, [[5], {'k': 1}]):
+        yield 'mutates-its-arguments', 'mutate', p
+    for p in ([], [1], {'a': 2}):
+        yield 'view-constructor-fails', 'broken.vm', p
+    yield 'unbound', 'ok', {'content-type': 1, 'a': 1}
+    yield 'unbound', 'noargs', {'': 0}
     for p in ([1], {'a': 2}):
         yield 'underscore-name', '_under', p
         yield 'underscore-name', 'ns._dotted', p
